@@ -714,7 +714,10 @@ void __wrap_nsync_mu_semaphore_p (void *s) {
 }
 int __wrap_nsync_mu_semaphore_p_with_deadline (void *s, struct timespec d) {
 	if (me < 0 || !binsem) return (__real_nsync_mu_semaphore_p_with_deadline (s, d));
-	__atomic_store_n (&T[me].a_timed, 1, __ATOMIC_RELEASE);
+	int untimed = ((int64_t) d.tv_sec > INT64_MAX / 2);   /* nsync_time_no_deadline */
+	T[me].wval = 0;
+	__atomic_store_n (&T[me].a_addr, &((struct binsem_layout *) s)->i, __ATOMIC_RELEASE);
+	__atomic_store_n (&T[me].a_timed, !untimed, __ATOMIC_RELEASE);
 	__atomic_store_n (&T[me].a_blocked, 1, __ATOMIC_RELEASE);
 	__atomic_fetch_add (&g_stamp, 1, __ATOMIC_ACQ_REL);
 	int r = __real_nsync_mu_semaphore_p_with_deadline (s, d);
